@@ -522,6 +522,56 @@ pub fn run(tier: Tier, seed: u64) -> i32 {
         }
     }
     report.count("seam_S_shape_calls", shape_calls);
+    // thorough: more than 2^32 peer-supplied bytes through every decrypter (a narrow byte counter overflows there)
+    if tier == Tier::Thorough {
+        let which: Vec<u8> = vec![0, 1, 2, 3];
+        which.par_iter().for_each(|&m| {
+            let total: u64 = (1u64 << 32) + (1 << 21);
+            let mut buf = vec![0xC3u8; 1 << 20];
+            let r = catch(|| {
+                let mut done = 0u64;
+                match m {
+                    0 => {
+                        let mut c = ciphers::vanilla(&key);
+                        while done < total {
+                            c.decrypt(&mut buf);
+                            done += buf.len() as u64;
+                        }
+                        let _ = c.decrypt_server_header([1, 2, 3, 4]);
+                    }
+                    1 => {
+                        let mut c = ciphers::tbc(&key);
+                        while done < total {
+                            c.decrypt(&mut buf);
+                            done += buf.len() as u64;
+                        }
+                        let _ = c.decrypt_server_header([1, 2, 3, 4]);
+                    }
+                    2 => {
+                        let mut c = ciphers::wrath_client(&key);
+                        while done < total {
+                            c.decrypt(&mut buf);
+                            done += buf.len() as u64;
+                        }
+                        let _ = c.attempt_decrypt_server_header([1, 2, 3, 4]);
+                    }
+                    _ => {
+                        let mut c = ciphers::wrath_server(&key);
+                        while done < total {
+                            c.decrypt(&mut buf);
+                            done += buf.len() as u64;
+                        }
+                        let _ = c.decrypt_client_header([1, 2, 3, 4, 5, 6]);
+                    }
+                }
+            });
+            if let Err(msg) = r {
+                viol(&report, "header", "decrypter-panic-after-4GiB", json!({"module": ["vanilla", "tbc", "wrath-client", "wrath-server"][m as usize], "bytes": total}), format!("decrypting more than 2^32 peer-supplied bytes on one connection panicked: {msg}"));
+            }
+        });
+        hdr_calls += 4;
+        report.space("more than 2^32 bytes through the decrypter of every module on one connection (thorough)");
+    }
     report.count("header_calls", hdr_calls);
 
     let total = calls.load(Ordering::Relaxed) + ccalls.load(Ordering::Relaxed) + seam + shape_calls + world + hdr_calls + r.transitions;
